@@ -195,6 +195,7 @@ def gen_sweep_family(r):
     special = set()
     for pr in corpus.FEEDER_PAIRS + corpus.VARIANT_PAIRS + corpus.STATE_PAIRS:
         special.update(pr[:2])
+    special.update(corpus.SOLO_SPECIAL)
     chosen = [x for x in pool if x[0] in special]
     rest = [x for x in pool if x[0] not in special]
     chosen += r.sample(rest, 10)
@@ -245,7 +246,8 @@ def gen_api_spec(seed, index, nhs, tier):
         ncalls = len(seq)
         meta['sweep'] = True
     elif sweep_sym:
-        m = r.randrange(len(templates))
+        solo = [i for i, n in enumerate(names) if n in corpus.SOLO_SPECIAL]
+        m = r.choice(solo) if solo and r.random() < 0.5 else r.randrange(len(templates))
         seq = [m, m] if r.random() < 0.7 else [m, m, r.randrange(len(templates))]
         ncalls = len(seq)
         meta['sweep_symmetric'] = True
